@@ -31,8 +31,6 @@ package parser
 //@ method (e EndNode) Pos() (r parsley.Pos) = parsley.Pos(e)
 //@ method (e EndNode) ReaderPos() (r parsley.Pos) = parsley.Pos(e)
 //@ specmethod (e EndNode) NodeOK() (r bool) = true
-//@ specmethod (e EndNode) ListSpare() (r int) = 0
-//@ specmethod (e EndNode) ListArr() (r int) = 0
 
 //@ closure Empty$1(ctx *parsley.Context, lrc data.IntMap, pos parsley.Pos) (n parsley.Node, cp data.IntSet, err parsley.Error)
 //@   include parsley.Parser.Parse
